@@ -17,6 +17,7 @@ CONSTANTS
     DropInputLandmarks = TRUE
     LastDupWins = TRUE
     LandmarkOwnStream = TRUE
+    VisitingIsPath = TRUE
 INIT Init
 NEXT Next
 INVARIANTS ExactlyOneLandmark EachAtMostOnce NothingLostOrDuplicated PrioritizedFirstInOrder ParentsAndTargetsBefore RestKeepsRelativeOrder MissingAbortsOrIsReported ImportIsEff
